@@ -41,7 +41,11 @@ def run(ck):
     build_driver(); build_harness()
     rng = Rng(ck.seed, "C02")
     # ---- phase 0: real gadget layouts to cut widget rows from
-    donors = [["w " + hx(rng.randrange(1 << 30)), "w " + hx(rng.randrange(1 << 30)), "rbits 32 $0", "land 6 $0 $1", "lxor 5 $0 $1", "snap"]]
+    from .. import jubjub as J
+    P_, Q_ = J.random_subgroup_point(rng), J.random_subgroup_point(rng)
+    ex = lambda p: " ".join(hx(v) for v in J.ext(p))
+    donors = [["w " + hx(rng.randrange(1 << 30)), "w " + hx(rng.randrange(1 << 30)), "rbits 32 $0", "land 6 $0 $1", "lxor 5 $0 $1",
+               f"pt {ex(P_)}", f"pt {ex(Q_)}", "padd $4 $5 $6 $7", "padd $8 $9 $8 $9", "w " + hx(rng.randrange(J.RJ)), f"mulgen $12 {ex(J.GEN)}", "snap"]]
     rc, out, err = run_harness("\n".join(["prog d0"] + donors[0]) + "\n", "c02_donor")
     dsnap = Snapshot(split_programs(out)["d0"])
     pairs = isolated_pairs(dsnap)
@@ -78,7 +82,8 @@ def run(ck):
     want_pairs = []
     for kk in (7, 8, 9, 10):
         ps = [p for p in pairs if p[1] == kk]
-        want_pairs += ps if not quick else [ps[j] for j in sorted(set(rng.randrange(len(ps)) for _ in range(4)))] if ps else []
+        cap = 4 if quick else 24
+        want_pairs += ps if len(ps) <= cap else [ps[j] for j in sorted(set(rng.randrange(len(ps)) for _ in range(cap)))]
     for (i, k) in want_pairs:
         sel = dsnap.gates[i][0]
         cur = [dsnap.wits[w] for w in dsnap.gates[i][1]]
@@ -212,7 +217,7 @@ def run(ck):
         elif mr and r.startswith("OK"): ck.violation(f"verifier ACCEPTED a forged proof ({desc})", ctx, key="accepted:" + desc.split(":")[0])
         elif not mr and not r.startswith("OK"): raise BuildError("C02 control proof rejected: " + r[:100])
     return ck.finish(level="proof",
-        rule="prover strategies: Prover::prove forced past its CircuitUnsatisfied check (cfg-guarded switch) on assignments with one witness overridden, raw rows of every widget family with random wires, single widget rows cut from real range/logic gadgets with each of their 8 wire values perturbed in isolation (classified by which component of the widget they violate), public-input witness mismatch, copy constraint broken with all rows satisfied; field-wise splices of two valid proofs (same circuit, different randomness / different witness); degenerate proofs under several public-input vectors. Oracle: the extracted, proved row evaluator on (compiled selectors, prover's wires) plus the copy-class check decides whether the statement is false; false => the real verifier must reject, true => accept; forced proofs are also handed to the Gallina reference verifier",
+        rule="prover strategies: Prover::prove forced past its CircuitUnsatisfied check (cfg-guarded switch) on assignments with one witness overridden, raw rows of every widget family with random wires, single widget rows cut from real range / logic / curve-addition / fixed-base gadgets with each of their 8 wire values perturbed in isolation (classified by which component of the widget they violate), public-input witness mismatch, copy constraint broken with all rows satisfied; field-wise splices of two valid proofs (same circuit, different randomness / different witness); degenerate proofs under several public-input vectors. Oracle: the extracted, proved row evaluator on (compiled selectors, prover's wires) plus the copy-class check decides whether the statement is false; false => the real verifier must reject, true => accept; forced proofs are also handed to the Gallina reference verifier",
         assumptions=["KZG binding / knowledge soundness (AGM) and Fiat-Shamir in the random-oracle model: not mechanised", "the explored strategies are those named in the property; an adversary with the SRS trapdoor is out of scope"],
         checker_cmd=proofgate.CHECKER_CMD, trusted_base=proofgate.TRUSTED)
 
